@@ -1,4 +1,5 @@
 import Bxh.Props.C07
+import Bxh.Proofs.ExecFrame
 /-!
 # C02 — IBTPs are accepted in index order, exactly once per ordered service pair
 Theorems about `Bxh.Exec` (model of `InterchainManager.HandleIBTP`, `checkIBTP`, `ProcessIBTP` and
@@ -125,5 +126,194 @@ theorem C02_fee_failed_not_listed :
 theorem C02_rejected_no_effect_holds : C02_rejected_no_effect := by
   intro env l s i p inv hfail hh
   exact ⟨C07.C07_failed_tx_storage_unchanged env l _ inv hfail hh, C07.C07_failed_tx_not_listed env l _ inv hfail⟩
+
+end Bxh.Props.C02
+
+namespace Bxh.Props.C02
+open Bxh Bxh.Exec
+
+/-! ### whole histories: requests of an ordered pair are accepted in the order 1, 2, 3, … exactly once -/
+
+/-- run IBTPs through the interchain contract one after the other; a rejected one leaves the ledger as it was -/
+def runIbtps (env : Env) (l : Led) (is : List Ibtp) : Led :=
+  is.foldl (fun l i => match handleIBTP env l i with | .ok r => r.1 | .error _ => l) l
+
+/-- indices of the accepted requests of the ordered pair (s, d), in acceptance order -/
+def acceptedReqs (env : Env) (s d : SvcId) : Led → List Ibtp → List Nat
+  | _, [] => []
+  | l, i :: rest =>
+    match handleIBTP env l i with
+    | .ok r => (if i.typ.isRequest = true ∧ i.frm = some s ∧ i.to = some d then [i.index] else []) ++ acceptedReqs env s d r.1 rest
+    | .error _ => acceptedReqs env s d l rest
+
+theorem handleIBTP_ok_checked {env : Env} {l : Led} {i : Ibtp} {r : Led × String} (h : handleIBTP env l i = .ok r) :
+    ∃ ck, checkIBTP env l i = .ok ck := by
+  unfold handleIBTP at h
+  split at h
+  · cases h
+  · rename_i ck hck; exact ⟨ck, hck⟩
+
+theorem checkIBTP_ends {env : Env} {l : Led} {i : Ibtp} {ck : Checked} (h : checkIBTP env l i = .ok ck) :
+    i.frm = some ck.src ∧ i.to = some ck.dst := by
+  unfold checkIBTP at h
+  split at h
+  · cases h
+  · rename_i src hsrc
+    split at h
+    · cases h
+    · rename_i dst hdst
+      simp only at h
+      have key : ∀ ck' : Checked, ck'.src = src → ck'.dst = dst → i.frm = some ck'.src ∧ i.to = some ck'.dst := by
+        intro ck' h1 h2; rw [h1, h2]; exact ⟨hsrc, hdst⟩
+      split at h
+      · split at h
+        · split at h
+          · cases h
+          · split at h
+            · cases h
+            · generalize checkTarget env l _ _ = ct at h
+              obtain ⟨b, t⟩ := ct
+              simp only at h
+              split at h
+              · split at h
+                · cases h
+                · cases h; exact key _ rfl rfl
+              · cases h; exact key _ rfl rfl
+        · split at h <;> cases h
+      · split at h
+        · split at h
+          · split at h
+            · cases h
+            · split at h
+              · cases h
+              · cases h; exact key _ rfl rfl
+          · split at h
+            · cases h
+            · split at h
+              · cases h
+              · cases h; exact key _ rfl rfl
+        · cases h
+
+/-- the destination is index-checked: a local, non-hub destination whose service record (if any) is an ordered one -/
+def OrderedDst (env : Env) (l : Led) (d : SvcId) : Prop :=
+  isLocal env d = true ∧ (d.chain == d.bxh) = false ∧ env.cache = [] ∧
+  ∀ sv, l.getS (.svc d.chain d.sid) = some (.svc sv) → sv.ordered = true
+
+theorem orderedDst_not_batch {env : Env} {l : Led} {i : Ibtp} {ck : Checked} (hd : OrderedDst env l ck.dst)
+    (h : checkIBTP env l i = .ok ck) (hreq : i.typ.isRequest = true) : ck.isBatch = false := by
+  obtain ⟨hloc, hhub, hcache, hord⟩ := hd
+  have hct : ∀ src, (checkTarget env l src ck.dst).1 = false := by
+    intro src
+    unfold checkTarget
+    simp only [hloc, hhub, if_true, Bool.false_eq_true, if_false]
+    unfold getSvc
+    rw [hcache]
+    simp only [KV.get]
+    cases hs : l.getS (.svc ck.dst.chain ck.dst.sid) with
+    | none => rfl
+    | some v =>
+      cases v with
+      | svc sv =>
+        simp only
+        split
+        · rfl
+        · split
+          · rfl
+          · simp [hord sv hs]
+      | _ => rfl
+  unfold checkIBTP at h
+  split at h
+  · cases h
+  · rename_i src hsrc
+    split at h
+    · cases h
+    · rename_i dst hdst
+      simp only [hreq, if_true] at h
+      split at h
+      · split at h
+        · cases h
+        · split at h
+          · cases h
+          · generalize hg : checkTarget env l src dst = ct at h
+            obtain ⟨b, t⟩ := ct
+            simp only at h
+            split at h
+            · split at h
+              · cases h
+              · cases h
+                have := hct src
+                simp only at this
+                rw [hg] at this
+                exact this
+            · cases h
+              have := hct src
+              simp only at this
+              rw [hg] at this
+              exact this
+      · split at h <;> cases h
+
+/-- **requests of an index-checked ordered pair are accepted as 1, 2, 3, … with no gap and no repeat,
+over any history of IBTPs** (requests and receipts of this and of every other pair, valid or not,
+in any interleaving): the accepted indices of the pair are exactly the consecutive numbers after
+the counter the history started with, and the counter ends at the start value plus their number -/
+theorem C02_history_requests_consecutive (env : Env) (s d : SvcId) (is : List Ibtp) (l : Led)
+    (hd : OrderedDst env l d) :
+    acceptedReqs env s d l is = List.range' (reqCounter l s d + 1) (acceptedReqs env s d l is).length ∧
+    reqCounter (runIbtps env l is) s d = reqCounter l s d + (acceptedReqs env s d l is).length := by
+  induction is generalizing l with
+  | nil => simp [acceptedReqs, runIbtps]
+  | cons i rest ih =>
+    unfold acceptedReqs
+    simp only [runIbtps, List.foldl_cons]
+    cases hh : handleIBTP env l i with
+    | error e =>
+      simp only
+      exact ih l hd
+    | ok r =>
+      simp only
+      obtain ⟨ck, hck⟩ := handleIBTP_ok_checked hh
+      obtain ⟨hfrm, hto⟩ := checkIBTP_ends hck
+      have hcnt := fun s' d' => handleIBTP_reqCounter hck hh s' d'
+      have hd' : OrderedDst env r.1 d := by
+        obtain ⟨h1, h2, h3, h4⟩ := hd
+        exact ⟨h1, h2, h3, fun sv hs => h4 sv (by rw [← handleIBTP_svc_frame hh]; exact hs)⟩
+      obtain ⟨ih1, ih2⟩ := ih r.1 hd'
+      have hrun : runIbtps env r.1 rest = List.foldl (fun l i => match handleIBTP env l i with | .ok r => r.1 | .error _ => l) r.1 rest := rfl
+      rw [← hrun]
+      by_cases hmine : i.typ.isRequest = true ∧ i.frm = some s ∧ i.to = some d
+      · obtain ⟨hreq, hfs, htd⟩ := hmine
+        have hs : ck.src = s := by rw [hfrm] at hfs; exact Option.some.inj hfs
+        have hdd : ck.dst = d := by rw [hto] at htd; exact Option.some.inj htd
+        have hnb : ck.isBatch = false := orderedDst_not_batch (by rw [hdd]; exact hd) hck hreq
+        have hidx := C02_accept_needs_next_index env l i ck hck hreq hnb
+        have hidx' : i.index = reqCounter l s d + 1 := by rw [← hs, ← hdd]; exact hidx
+        have hc1 : reqCounter r.1 s d = reqCounter l s d + 1 := by
+          rw [hcnt s d]; simp [hreq, hs, hdd]
+        simp only [hreq, hfs, htd, and_self, if_true, List.singleton_append, List.length_cons]
+        rw [ih2, hc1]
+        refine ⟨?_, by omega⟩
+        rw [List.range'_succ, ← hidx']
+        congr 1
+        rw [hc1] at ih1
+        rw [hidx']
+        exact ih1
+      · have hc0 : reqCounter r.1 s d = reqCounter l s d := by
+          rw [hcnt s d]
+          have : ¬ (i.typ.isRequest = true ∧ s = ck.src ∧ d = ck.dst) := by
+            intro ⟨h1, h2, h3⟩
+            exact hmine ⟨h1, by rw [hfrm, h2], by rw [hto, h3]⟩
+          simp [this]
+        simp only [hmine, if_false, List.nil_append]
+        rw [ih2, hc0]
+        rw [hc0] at ih1
+        exact ⟨ih1, rfl⟩
+
+/-- non-vacuity: request 1, a replay of 1, request 3 (a gap), request 2 — accepted: 1 and 2 -/
+example :
+    let svc : Svc := { ordered := true, blacklist := [], available := true }
+    let l : Led := { store := [(.svc "c1" "s1", .svc svc), (.svc "c2" "s1", .svc svc)] }
+    let env : Env := { cfg := {}, cache := [], height := 7, txIndex := 0 }
+    let rq (n : Nat) : Ibtp := { frm := some s11, to := some s21, index := n, typ := .interchain, timeout := 0, group := none }
+    acceptedReqs env s11 s21 l [rq 1, rq 1, rq 3, rq 2] = [1, 2] := by decide
 
 end Bxh.Props.C02
